@@ -8,6 +8,7 @@ Oracle (an accuracy bound, not an identity): with err_k(x) = |P_k(x) - P_fine(x)
   Absolute bounds are taken over the bulk lattice (a coarse grid is not adequate inside its own last area); the convergence ratio is also demanded incl. the mid-points of the last two coarse areas.
 """
 import itertools
+import os
 import math
 
 import numpy as np
@@ -88,7 +89,7 @@ class _P:
 
 def _v(st, what, msg):
     fp = dict(st, cls=what)
-    return {"fp": fp, "fpkey": {"cls": what, "family": st["family"], "degree": st["degree"], "kind": st["kind"], "process": st["process"], "pto": st["pto"]}, "msg": msg}
+    return {"fp": fp, "fpkey": {"cls": what, "family": st.get("family", st.get("flip")), "degree": st.get("degree", 0), "kind": st["kind"], "process": st["process"], "pto": st["pto"]}, "msg": msg}
 
 
 def _predict(out, name, grid, i, pdf, order, part=0):
@@ -155,9 +156,81 @@ def _states_combo(seed):
     return out
 
 
+# --- same nodes, other interpolation settings, ONE process -------------------------------------------------------------------------
+# "results from two adequate grids agree" presupposes that a grid's result is a function of that grid alone. Two cards whose grids differ only in
+# the log flag, the degree, or by a relative 1e-9 in one inner node are run one after the other in this process (all order keys, scale variations
+# and TMC on); the second must be bit-identical to the same card run alone in a fresh interpreter.
+_FLIPS = {
+    "log->lin": (("nodes", True, 3), ("nodes", False, 3)),
+    "lin->log": (("nodes", False, 3), ("nodes", True, 3)),
+    "deg3->deg2": (("nodes", True, 3), ("nodes", True, 2)),
+    "deg2->deg4": (("nodes", True, 2), ("nodes", True, 4)),
+    "moved-node": (("nodes", True, 3), ("moved", True, 3)),
+    "linear-moved-node": (("lnodes", False, 2), ("lmoved", False, 2)),
+}
+_FLIP_CHILD = r"""
+import json, sys, os
+sys.path.insert(0, os.environ["YMC_VERIF"])
+from ymc import yrun
+cell, obs = json.loads(sys.argv[1])
+out = yrun.run(cell, obs)
+print("DIGEST", yrun.out_digest(out))
+"""
+
+
+def _states_flip(seed):
+    out = []
+    for pair in _FLIPS:
+        for k, p, sc, pto, tmc in (("F2", "EM", "ZM-VFNS", 1, 0), ("F3", "CC", "ZM-VFNS", 1, 0), ("FL", "NC", "ZM-VFNS", 2, 0), ("F2", "NC", "ZM-VFNS", 1, 1), ("F2", "EM", "FFNS3", 1, 0)):
+            out.append({"flip": pair, "kind": k, "process": p, "scheme": sc, "pto": pto, "tmc": tmc, "heavyness": "total"})
+    return out
+
+
+def _flip_grid(which):
+    from eko import interpolation
+
+    if which in ("nodes", "moved"):
+        g = interpolation.make_grid(15, 10, x_min=1e-4).tolist()
+    else:
+        g = np.linspace(0.05, 1.0, 15).tolist()
+    if which in ("moved", "lmoved"):
+        g[len(g) // 2] *= 1 + 1e-9
+    return g
+
+
+def _flip(st):
+    import json as _json
+    import subprocess
+    import sys
+
+    name = cards.obsname(st["kind"], st["heavyness"])
+    obs = {name: [cards.kin(x, 30.0) for x in (0.1, 0.3, 0.6)]}
+    digs = []
+    cells = []
+    for which, lg, deg in _FLIPS[st["flip"]]:
+        c = {"process": st["process"], "scheme": st["scheme"], "pto": st["pto"], "tmc": st["tmc"], "theory": {"RenScaleVar": True, "FactScaleVar": True},
+             "obscard": {"interpolation_xgrid": _flip_grid(which), "interpolation_polynomial_degree": deg, "interpolation_is_log": lg}}
+        out, s = rel.try_run(c, obs)
+        if s != "ok":
+            return {"violations": [], "nontrivial": False, "outcome": s, "transitions": len(digs) + 1, "info": {"n_" + s.split(":")[0]: 1}}
+        digs.append(yrun.out_digest(out))
+        cells.append(c)
+    env = dict(os.environ)
+    env["YMC_VERIF"] = os.path.dirname(os.path.dirname(os.path.dirname(os.path.abspath(__file__))))
+    p = subprocess.run([sys.executable, "-c", _FLIP_CHILD, _json.dumps([cells[1], obs])], env=env, capture_output=True, text=True, timeout=1800)
+    fresh = [ln.split()[1] for ln in p.stdout.splitlines() if ln.startswith("DIGEST")]
+    if p.returncode != 0 or not fresh:
+        raise RuntimeError(f"fresh-interpreter run failed: {p.stderr[-400:]}")
+    viol = []
+    if fresh[0] != digs[1]:
+        a, b = _FLIPS[st["flip"]]
+        viol.append(_v(st, "grid-history", f"{name} {st['process']} {st['scheme']} pto={st['pto']} tmc={st['tmc']}: the run on grid {b} gives other operators after a run on grid {a} in the same process than alone in a fresh interpreter (digest {digs[1]} vs {fresh[0]}): a grid's result is not a function of that grid"))
+    return {"violations": viol, "nontrivial": True, "outcome": digest(digs), "transitions": 3}
+
+
 def states(tier, seed):
     """quick = the full base lattice; thorough = base lattice + the deep extension."""
-    base = _states_base("thorough", seed) + _states_combo(seed) + _states_cross(seed)
+    base = _states_base("thorough", seed) + _states_combo(seed) + _states_cross(seed) + _states_flip(seed)
     if tier == "quick":
         return base
     seen = {digest(s) for s in base}
@@ -179,6 +252,8 @@ def execute(st):
     yrun.reset_memos()
     if st.get("cross"):
         return _cross(st)
+    if st.get("flip"):
+        return _flip(st)
     fam = FAMS[st["family"]]
     grids = [_grid(s) for s in fam]
     coarse = grids[0][0]
